@@ -65,7 +65,12 @@ func (t *Task) LocalName() string {
 // WildcardMatch will check if the given string matches the name of the Task and returns any wildcard values.
 func (t *Task) WildcardMatch(name string) (bool, []string) {
 	// Convert the name into a regex string
-	regexStr := fmt.Sprintf("^%s$", strings.ReplaceAll(t.Task, "*", "(.*)"))
+	// Every character other than "*" is literal
+	parts := strings.Split(t.Task, "*")
+	for i, part := range parts {
+		parts[i] = regexp.QuoteMeta(part)
+	}
+	regexStr := fmt.Sprintf("^%s$", strings.Join(parts, "(.*)"))
 	regex := regexp.MustCompile(regexStr)
 	wildcards := regex.FindStringSubmatch(name)
 	wildcardCount := strings.Count(t.Task, "*")
